@@ -18,6 +18,7 @@ import (
 	sgetty "seata.apache.org/seata-go/pkg/remoting/getty"
 	serr "seata.apache.org/seata-go/pkg/util/errors"
 
+	"verifharness/quiet"
 	"verifharness/vclock"
 )
 
@@ -552,8 +553,30 @@ func (tc *TC) Request(body interface{}, resourceID string) (message.RpcMessage, 
 	}
 }
 
-// Join waits for a delivery thread to finish; a cooperative scheduler replaces it.
-var Join = func(done chan struct{}) { <-done }
+// Join waits for a delivery thread to finish. If the whole process goes quiet (every goroutine blocked) while the
+// handler has not returned, the handler is stuck for good: Join gives up and Hung is incremented.
+var Join = func(done chan struct{}) {
+	isDone := func() bool {
+		select {
+		case <-done:
+			return true
+		default:
+			return false
+		}
+	}
+	// fast path (performance only): most handlers return within microseconds
+	select {
+	case <-done:
+		return
+	case <-time.After(20 * time.Millisecond):
+	}
+	if quiet.Settle(isDone, 5) {
+		Hung++
+	}
+}
+
+// Hung counts message handlers that never returned (the process went quiet with the handler still blocked).
+var Hung int
 
 // BranchRollback asks the client to roll one branch back; ok=false means no response.
 func (tc *TC) BranchRollback(xid string, b *Branch) (message.BranchRollbackResponse, bool) {
